@@ -18,7 +18,9 @@ EXPLANATION = (
     "every Column constructor parameter, each read from the attribute of the same name; (R3) the component "
     "constructors called by set_index / reset_index / MultiIndex.__init__ forward every attribute that the source "
     "component has and the target constructor accepts; (R4) every explicit raise in the transformation methods is "
-    "SchemaInitError or ValueError. NOT decided: that the transformed schema accepts exactly the transformed "
+    "SchemaInitError or ValueError; (R3 also reads **splat forwarding: a comprehension over Column.properties may "
+    "exclude keys by name only, never by the truthiness of the value); (R5) no transformation re-keys a column by "
+    "pop-and-insert (which moves it to the end of the mapping and breaks column order / the rename-back law). NOT decided: that the transformed schema accepts exactly the transformed "
     "frames; inverse laws on values."
 )
 LEVEL_RULE = "one obligation per (method) / (constructor parameter) / (constructor call, attribute) / raise"
